@@ -16,6 +16,7 @@
 #include <limits>
 #include <stdexcept>
 #include <string>
+#include <type_traits>
 
 #include <netdb.h>
 #include <netinet/in.h>
@@ -200,13 +201,19 @@ namespace Pistache
     template <typename T>
     size_t digitsCount(T val)
     {
+        // Number of characters operator<< prints for val in base 10
         size_t digits = 0;
-        while (val % 10)
+        if constexpr (std::is_signed<T>::value)
+        {
+            if (val < 0)
+                ++digits; // the minus sign
+        }
+        do
         {
             ++digits;
 
             val /= 10;
-        }
+        } while (val != 0);
 
         return digits;
     }
